@@ -1,6 +1,7 @@
 use std::any::type_name;
 use std::borrow::{Borrow, BorrowMut};
 use std::ops::{Deref, DerefMut};
+use std::panic::{AssertUnwindSafe, catch_unwind, resume_unwind};
 use std::pin::Pin;
 use std::ptr::NonNull;
 use std::sync::{Arc, Mutex};
@@ -278,11 +279,22 @@ impl<T: ?Sized> Drop for PooledMut<T> {
 
         let mut pool = self.pool.lock().expect(NEVER_POISONED);
 
-        // SAFETY: We are a managed unique handle, so we are the only one who is allowed to remove
-        // the object from the pool - as long as we exist, the object exists in the pool. We keep
-        // the pool alive for as long as any handle to it exists, so the pool must still exist.
-        unsafe {
-            pool.remove(inner);
+        // The object's destructor is user code and may panic. We must not unwind while holding the
+        // pool lock (that would poison it for every other handle and pool clone), so we catch the
+        // panic, release the lock cleanly and only then let the panic continue. The pool completes
+        // its own bookkeeping before it runs the destructor, so its state is consistent either way.
+        let result = catch_unwind(AssertUnwindSafe(|| {
+            // SAFETY: We are a managed unique handle, so we are the only one who is allowed to remove
+            // the object from the pool - as long as we exist, the object exists in the pool. We keep
+            // the pool alive for as long as any handle to it exists, so the pool must still exist.
+            unsafe {
+                pool.remove(inner);
+            }
+        }));
+        drop(pool);
+
+        if let Err(payload) = result {
+            resume_unwind(payload);
         }
     }
 }
